@@ -17,6 +17,7 @@ ASSUMPTIONS = [
     "the verify cache is exercised through block import (the same transaction verified on two branches, with identical and with swapped witnesses); the pool-then-block path is covered by the pool engine's C13 runs, not compared twin-wise here",
     "SYSTEM_CELL (process-global OnceLock) is unset in every twin: not compared set vs unset",
     "one scenario in three hands its first 3-25 first-time deliveries of valid-chain blocks to the chain service with Switch::DISABLE_SCRIPT, as the node does before its assume-valid target; blocks that are invalid by construction are always delivered with full verification (assume-valid concerns the trusted chain only)",
+    "snapshot readers: in two scenarios out of three one to three snapshots are captured at arbitrary points, asked for the header and the whole block of EVERY block of the scenario by hash (blocks they cannot know yet included, as an RPC client may ask), and asked again later and at the end: a snapshot never panics and answers as it did when it was taken (reported only when the run has nothing else to report)",
     "planted gadgets (one scenario in three each): a time-locked transaction committed validly on one branch and one block too early on a later, longer branch; an uncle whose parent is an uncle included on another branch only",
 ]
 
@@ -67,7 +68,9 @@ def run(tier, args):
             for r in res:
                 agg.add(r)
             bad = [r["violation"] for r in res if r.get("violation")]
-            v = bad[0] if bad else compare(res)
+            # a listed known finding inside one twin must not hide a disagreement between the twins
+            unknown_bad = [x for x in bad if not match_known(PROP, x["class"])]
+            v = unknown_bad[0] if unknown_bad else (compare(res) or (bad[0] if bad else None))
             compared += 1
             labels_compared += len((res[0].get("extra") or {}).get("c14", []))
             if v:
@@ -95,7 +98,8 @@ def run(tier, args):
                 c = copy.deepcopy(t); c["ops"] = ops; ts.append(c)
             rs = [nc.exec_scenario(t) for t in ts]
             b = [r["violation"] for r in rs if r.get("violation")]
-            vv = b[0] if b else compare(rs)
+            ub = [x for x in b if not match_known(PROP, x["class"])]
+            vv = ub[0] if ub else (compare(rs) or (b[0] if b else None))
             return bool(vv) and vv["class"] == vclass
         calls = [0]
         def budgeted(ops):
@@ -127,10 +131,18 @@ def compare(res):
             return {"property": PROP, "class": "twin_without_answers", "detail": f"twin {CONFIGS[i][0]} produced no digest"}
         if other != base:
             bm = dict((a, b) for a, b in base); om = dict((a, b) for a, b in other)
+            first_known = None
             for k in bm:
                 if om.get(k) != bm[k]:
                     kind = k.split("#")[0].split("[")[0]
-                    return {"property": PROP, "class": f"answer_differs:{kind}", "detail": f"{k}: {CONFIGS[0][0]}={bm[k]} vs {CONFIGS[i][0]}={om.get(k)}"}
+                    v = {"property": PROP, "class": f"answer_differs:{kind}", "detail": f"{k}: {CONFIGS[0][0]}={bm[k]} vs {CONFIGS[i][0]}={om.get(k)}"}
+                    # a difference that is a listed known finding must not hide another one
+                    if match_known(PROP, v["class"]):
+                        first_known = first_known or v
+                        continue
+                    return v
+            if first_known:
+                return first_known
             extra = [k for k in om if k not in bm]
             return {"property": PROP, "class": "answer_differs:shape", "detail": f"twin {CONFIGS[i][0]} has extra answers {extra[:3]}"}
     return None
